@@ -9,13 +9,21 @@ pub trait TreapItemSized {
     fn size(&self) -> usize;
 }
 
-static mut RNG: Rng = Rng::from_seed(42);
+thread_local! {
+    // one generator per thread: nodes may be created from any thread, and an unsynchronised
+    // `static mut` generator would be a data race
+    static RNG: std::cell::Cell<Rng> = std::cell::Cell::new(Rng::from_seed(42));
+}
 
 type Priority = u32;
 
-#[allow(static_mut_refs)]
 fn gen_priority() -> Priority {
-    unsafe { RNG.next_raw() as Priority }
+    RNG.with(|cell| {
+        let mut rng = cell.get();
+        let priority = rng.next_raw() as Priority;
+        cell.set(rng);
+        priority
+    })
 }
 
 pub struct TreapNode<T> {
